@@ -40,7 +40,7 @@ PROPS = {
     },
     "C15": {
         "level": "proof",
-        "lean_targets": ["LP.Props.C15"],
+        "lean_targets": ["LP.Props.C15", "LP.Props.C15V"],
         "harnesses": [{"name": "h_interval", "quick": 60000, "thorough": 1000000}],
         "select": lambda t: t[1] in ("qi", "di", "vi"),
         "nontrivial": lambda t, r: True,
@@ -49,7 +49,7 @@ PROPS = {
                 "ties are frequent, symmetric intervals, multi-limb dyadics). Distinct = distinct (type, op, operands, destination kind); "
                 "every case is an interval operation, hence non-trivial.",
         "trusted_base": ["exact rational/dyadic arithmetic of C17 below the interval layer"],
-        "assumptions": ["value intervals with algebraic end points are not replayed through the model (see DESIGN)"],
+        "assumptions": ["value intervals (lp_interval_*) are replayed with integer/dyadic/rational/infinite end points; algebraic end points are not replayed (see DESIGN)"],
     },
     "C14": {
         "level": "proof",
